@@ -54,22 +54,19 @@ class _RowsIterator:
             self.rows_processed += 1
             return row
         else:
-            # Fetch the next table and process it
-            self.current_table = next(self.tables, None)
-            if self.current_table is None:
-                raise StopIteration()
+            # Fetch the next table with rows to process, skipping empty ones
+            while row is None:
+                self.current_table = next(self.tables, None)
+                if self.current_table is None:
+                    raise StopIteration()
 
-            self.current_rows = iter(
-                process_table(self.current_table, self.row_factory, self.batch_size)
-            )
+                self.current_rows = iter(
+                    process_table(self.current_table, self.row_factory, self.batch_size)
+                )
+                row = next(self.current_rows, None)
 
-            # Check if the new table has rows to process
-            row = next(self.current_rows, None)
-            if row is not None:
-                self.rows_processed += 1
-                return row
-            else:
-                raise StopIteration()
+            self.rows_processed += 1
+            return row
 
 
 def to_arrow(dataset, size=None):
